@@ -32,6 +32,10 @@ def castTo (f : IntFormat) (x : Int) : Int :=
 def hasPrefix (pre s : String) : Bool := pre.toList.isPrefixOf s.toList
 def hasSuffix (suf s : String) : Bool := suf.toList.reverse.isPrefixOf s.toList.reverse
 
+/-- `strings.TrimPrefix` -/
+def trimPrefix (pre s : String) : String :=
+  if hasPrefix pre s then String.ofList (s.toList.drop pre.length) else s
+
 /-- `if !strings.HasPrefix(name, prefix) { name = prefix + name }` -/
 def addPrefix (pre name : String) : String := if hasPrefix pre name then name else pre ++ name
 
@@ -46,13 +50,15 @@ def numberFrom (pre : String) : Nat → List String → List (String × Int)
 
 /-- The values of the compiled enum in descriptor order: (full name, number). Option numbers of the
 source are all zero for j5s text (the language has no way to set them short of `number = n`,
-which the compiler ignores except for recognising an explicit first `…UNSPECIFIED`). -/
+which the compiler ignores except for recognising an explicit first `UNSPECIFIED`). -/
 def EnumDecl.values (e : EnumDecl) : List (String × Int) :=
   let pre := e.pfx
   match e.options with
   | [] => [(pre ++ "UNSPECIFIED", 0)]
   | o :: rest =>
-    if hasSuffix "UNSPECIFIED" o then (addPrefix pre o, 0) :: numberFrom pre 1 rest
+    -- `isExplicitUnspecified`: only UNSPECIFIED itself (with or without the prefix) declared first
+    -- replaces the implicit zero value
+    if trimPrefix pre o == "UNSPECIFIED" then (addPrefix pre o, 0) :: numberFrom pre 1 rest
     else (pre ++ "UNSPECIFIED", 0) :: numberFrom pre 1 (o :: rest)
 
 /-- `EnumRef.ValMap` as built by the repaired `enumTypeRef`: the implicit `prefix+"UNSPECIFIED" → 0`
@@ -89,12 +95,26 @@ structure ItemAnnot where
   psmKey : Option PsmKey
   deriving DecidableEq, Repr
 
-/-- the integer rules branch: the two pre-checks, then lt/lte and gt/gte chosen by the flags -/
+/-- `checkIntegerBound`: a bound (an int64 in the source) must be representable in the field's type -/
+def boundFits (fmt : IntFormat) (b : Option Int) : Bool :=
+  match b with
+  | none => true
+  | some v =>
+    match fmt with
+    | .i32 => decide (-(2 ^ 31) ≤ v) && decide (v ≤ 2 ^ 31 - 1)
+    | .u32 => decide (0 ≤ v) && decide (v ≤ 2 ^ 32 - 1)
+    | .u64 => decide (0 ≤ v)
+    | .i64 => true
+
+/-- the integer rules branch: the two pre-checks, the range checks, then lt/lte and gt/gte chosen
+by the flags -/
 def compileInt (fmt : IntFormat) (r : IntRules) : Outcome ItemC :=
   if r.exclusiveMinimum = some false ∧ r.minimum = none then
     .err "exclusive minimum requires minimum to be set"
   else if r.exclusiveMaximum = some false ∧ r.maximum = none then
     .err "exclusive maximum requires maximum to be set"
+  else if !boundFits fmt r.minimum then .err "minimum is out of range"
+  else if !boundFits fmt r.maximum then .err "maximum is out of range"
   else
     let ub : UpperB :=
       match r.maximum with
@@ -111,6 +131,11 @@ def keyStringC : KeyFormat → StringC
   | .id62 => { pattern := some id62Pattern }
   | .custom p => { pattern := some p }
   | .informal => {}
+
+/-- the custom pattern is also recorded in `(j5.ext.v1.field).key.pattern` -/
+def keyExtPattern : Option KeyFormat → Option String
+  | some (.custom p) => some p
+  | _ => none
 
 def keyListExt (format : Option KeyFormat) (p : String) : Outcome ListExt :=
   match format with
@@ -172,7 +197,7 @@ def buildField : Schema → Outcome ItemAnnot
       | .err t => .err t
       | .panic w => .panic w
   | .key format entity lr =>
-    let j5 : J5Ext := .key (match format with | some (.custom p) => some p | _ => none)
+    let j5 : J5Ext := .key (keyExtPattern format)
     let validate := format.map fun f => ItemC.string (keyStringC f)
     let psm := entity.map entityPsm
     match lr with
@@ -206,22 +231,39 @@ def setRequired (c : Option FieldC) : Option FieldC :=
   | none => some { required := some true, typ := .item .none }
   | some c => some { c with required := some true }
 
+def psmPrimaryKey (k : Option PsmKey) : Bool :=
+  match k with
+  | some k => k.primaryKey
+  | none => false
+
+/-- `(buf.validate.field)` of the property: the item constraint (wrapped under `repeated` for an
+array), plus `required` -/
+def fieldValidate (schema : FieldSchema) (v : Option ItemC) (required : Bool) : Option FieldC :=
+  let base : Option FieldC :=
+    match schema with
+    | .single _ => v.map fun c => { required := none, typ := .item c }
+    | .array _ rules _ => wrapArray v rules
+  if required then setRequired base else base
+
+/-- `(j5.ext.v1.field)`: for an array the `array` annotation replaces the item's -/
+def fieldJ5 (schema : FieldSchema) (item : Option J5Ext) : Option J5Ext :=
+  match schema with
+  | .single _ => item
+  | .array _ _ sf => some (.array sf)
+
 def writeField (p : Property) : Outcome Annot :=
   match buildField p.schema.item with
   | .err t => .err t
   | .panic w => .panic w
   | .ok a =>
-    let (validate, j5) : Option FieldC × Option J5Ext :=
-      match p.schema with
-      | .single _ => (a.validate.map fun c => { required := none, typ := .item c }, a.j5)
-      | .array _ rules sf => (wrapArray a.validate rules, some (.array sf))
-    let required := p.required || (match a.psmKey with | some k => k.primaryKey | none => false)
-    let validate := if required then setRequired validate else validate
+    -- even if not explicitly set, a primary key is required
+    let required := p.required || psmPrimaryKey a.psmKey
     if p.explicitlyOptional && required then .err "cannot be both required and optional"
     else .ok {
       jsonName := p.name, number := p.number, description := p.description,
       kind := a.kind, repeated := p.schema.isArray, proto3Optional := p.explicitlyOptional,
-      validate := validate, j5 := j5, list := a.list, psmKey := a.psmKey }
+      validate := fieldValidate p.schema a.validate required, j5 := fieldJ5 p.schema a.j5,
+      list := a.list, psmKey := a.psmKey }
 
 /-- C12's view of the compiler: the emitted `(buf.validate.field)` -/
 def compileRules (p : Property) : Outcome (Option FieldC) :=
